@@ -86,6 +86,13 @@ func (l LightClientModule) VerifyMembership(
 ) error {
 	ibcStore := l.storeService.OpenKVStore(ctx)
 
+	// the localhost client reads the chain's current state: a proof height above
+	// the chain's own height does not exist yet and must not be usable to make a
+	// packet's height timeout look elapsed
+	if selfHeight := clienttypes.GetSelfHeight(ctx); height.GT(selfHeight) {
+		return errorsmod.Wrapf(ibcerrors.ErrInvalidHeight, "proof height %s is greater than the current height %s", height, selfHeight)
+	}
+
 	// ensure the proof provided is the expected sentinel localhost client proof
 	if !bytes.Equal(proof, SentinelProof) {
 		return errorsmod.Wrapf(commitmenttypes.ErrInvalidProof, "expected %s, got %s", string(SentinelProof), string(proof))
@@ -129,6 +136,13 @@ func (l LightClientModule) VerifyNonMembership(
 	path exported.Path,
 ) error {
 	ibcStore := l.storeService.OpenKVStore(ctx)
+
+	// the localhost client reads the chain's current state: a proof height above
+	// the chain's own height does not exist yet and must not be usable to make a
+	// packet's height timeout look elapsed
+	if selfHeight := clienttypes.GetSelfHeight(ctx); height.GT(selfHeight) {
+		return errorsmod.Wrapf(ibcerrors.ErrInvalidHeight, "proof height %s is greater than the current height %s", height, selfHeight)
+	}
 
 	// ensure the proof provided is the expected sentinel localhost client proof
 	if !bytes.Equal(proof, SentinelProof) {
